@@ -538,8 +538,16 @@ class Project:
             return
         sn = cp.params[0]
         why = None
+        fresh_locals = {t.id for n in ast.walk(cp.node) if isinstance(n, ast.Assign) and isinstance(n.value, ast.Call) and (self.resolve_class_expr(n.value.func, cp.module) is rc or (isinstance(n.value.func, ast.Attribute) and n.value.func.attr == "deepcopy"))
+                        for t in n.targets if isinstance(t, ast.Name)}
+        shares = [n for n in ast.walk(cp.node) if isinstance(n, ast.Assign) and any(isinstance(t, ast.Attribute) and isinstance(t.value, ast.Name) and t.value.id in fresh_locals for t in n.targets)
+                  and isinstance(n.value, ast.Attribute) and isinstance(n.value.value, ast.Name) and n.value.value.id == sn]
         for r in [n for n in ast.walk(cp.node) if isinstance(n, ast.Return)]:
             v = r.value
+            if isinstance(v, ast.Name) and v.id in fresh_locals:
+                if shares:
+                    why = "`%s` (line %d) hands the original's own dictionary to the new object" % (unparse(shares[0])[:40], shares[0].lineno)
+                continue
             if isinstance(v, ast.Call) and self.resolve_class_expr(v.func, cp.module) is rc or (isinstance(v, ast.Call) and isinstance(v.func, ast.Call) and isinstance(v.func.func, ast.Name) and v.func.func.id == "type"):
                 # a new object from the constructor: which must copy the entries it is given
                 if init is not None and len(init.params) >= 2:
